@@ -225,7 +225,7 @@ Definition step_dropped (filters dm : list N) (ls : list (list obj)) (i : nat) (
         let both := rp0 && rc1 in
         let rp := if both then negb (prio ty2 <=? prio ty1)%Z else rp0 in
         let rc := if both then negb rp else rc1 in
-        if levels_same_structure l1 l2 (ty2 =? HWLOC_OBJ_PU) && negb (rp && parent_memory_wider l1 l2)
+        if levels_same_structure l1 l2 (ty2 =? HWLOC_OBJ_PU) && negb (rp && (parent_memory_wider l1 l2 || parent_first_differs l1 l2))
         then dropped (map oid l1) rc root
         else []
   | _, _ => []
@@ -428,3 +428,117 @@ Proof.
   split; [|vm_compute; repeat split].
   unfold mem_sorted_tree. repeat constructor; vm_compute; reflexivity.
 Qed.
+
+(* ---------- the normal children stay ordered ---------- *)
+
+(* Removing a PARENT level puts each only child at its parent's place among the parent's siblings, which are ordered
+   by the first index of their complete cpusets.  The order survives when every removed parent starts at the same
+   index as its child (the test [parent_first_differs] that merge_step makes level-wise since the fix); without it
+   the order can break: [merge_order_refuted] below is the input on which the unrepaired code aborted in
+   hwloc_topology_check(). *)
+From HV Require Import Topo.WFCheck.
+
+Definition rk (o : obj) : option N := first_index (o_ccs (odata o)).
+Definition kids_ordered (p : obj) : Prop :=
+  ordered_first (map (fun c => oset (o_ccs (odata c))) (onch p)) (-1)%Z false = true.
+Definition ord_tree (o : obj) : Prop := Forall kids_ordered (nflatten o).
+Definition same_start (ids : list N) (p : obj) : Prop :=
+  memN (oid p) ids = true -> forall c, onch p = [c] -> rk p = rk c.
+Definition guard (ids : list N) (o : obj) : Prop := Forall (same_start ids) (nflatten o).
+
+Lemma first_Z_rk a b : rk a = rk b -> first_Z (oset (o_ccs (odata a))) = first_Z (oset (o_ccs (odata b))).
+Proof. unfold rk, first_index, first_Z. now intros ->. Qed.
+
+Lemma ordered_first_ext l1 l2 : map first_Z l1 = map first_Z l2 ->
+  forall pf pe, ordered_first l1 pf pe = ordered_first l2 pf pe.
+Proof.
+  revert l2. induction l1 as [|a t1 IH]; intros [|b t2] H; try discriminate; [reflexivity|].
+  cbn [map] in H. injection H as Hab Ht. intros pf pe. cbn [ordered_first]. cbv zeta. rewrite Hab.
+  destruct (0 <=? first_Z b)%Z; now rewrite (IH _ Ht).
+Qed.
+
+Lemma guard_children ids d n m i x : guard ids (Obj d n m i x) -> Forall (guard ids) n.
+Proof.
+  unfold guard. rewrite nflatten_eq. cbn [onch]. intros H. inversion H as [|? ? _ Hr]; subst. clear H.
+  unfold nflattens in Hr. induction n as [|c tl IH]; [constructor|].
+  cbn [flat_map] in Hr. apply Forall_app in Hr. destruct Hr as [Hc Ht]. constructor; [exact Hc|now apply IH].
+Qed.
+
+Lemma ord_children d n m i x : ord_tree (Obj d n m i x) -> Forall ord_tree n.
+Proof.
+  unfold ord_tree. rewrite nflatten_eq. cbn [onch]. intros H. inversion H as [|? ? _ Hr]; subst. clear H.
+  unfold nflattens in Hr. induction n as [|c tl IH]; [constructor|].
+  cbn [flat_map] in Hr. apply Forall_app in Hr. destruct Hr as [Hc Ht]. constructor; [exact Hc|now apply IH].
+Qed.
+
+Lemma merge_tree_rk ids o : guard ids o -> rk (merge_tree ids false o) = rk o.
+Proof.
+  induction o as [d n m i x Hn _ _ _] using obj_ind4. intros G.
+  pose proof (guard_children _ _ _ _ _ _ G) as Gn.
+  rewrite merge_tree_eq. destruct (memN (o_id d) ids) eqn:M; [|reflexivity].
+  destruct n as [|c [|c2 tl]]; try reflexivity.
+  - cbn [map]. destruct (merge_tree ids false c) as [dc cn cm ci cx] eqn:Ec.
+    inversion Hn as [|? ? Hc _]; subst. inversion Gn as [|? ? Gc _]; subst.
+    specialize (Hc Gc). rewrite Ec in Hc.
+    unfold guard in G. rewrite nflatten_eq in G. inversion G as [|? ? G0 _]; subst.
+    specialize (G0 M c eq_refl). rewrite G0, <- Hc. reflexivity.
+  - cbn [map]. destruct (merge_tree ids false c); reflexivity.
+Qed.
+
+Lemma map_rk_merge ids n : Forall (guard ids) n ->
+  map (fun c => first_Z (oset (o_ccs (odata c)))) (map (merge_tree ids false) n) =
+  map (fun c => first_Z (oset (o_ccs (odata c)))) n.
+Proof.
+  induction 1 as [|c tl Gc _ IH]; [reflexivity|]. cbn [map]. rewrite IH. f_equal.
+  apply first_Z_rk. now apply merge_tree_rk.
+Qed.
+
+Theorem merge_tree_children_ordered ids o : guard ids o -> ord_tree o -> ord_tree (merge_tree ids false o).
+Proof.
+  induction o as [d n m i x Hn _ _ _] using obj_ind4. intros G Ho.
+  pose proof (guard_children _ _ _ _ _ _ G) as Gn. pose proof (ord_children _ _ _ _ _ Ho) as On.
+  assert (Hl : Forall kids_ordered (nflattens (map (merge_tree ids false) n))).
+  { unfold nflattens. clear G Ho. induction Hn as [|c tl Hc _ IH]; [constructor|].
+    inversion Gn; subst. inversion On; subst. cbn [map flat_map]. apply Forall_app. split; [now apply Hc|now apply IH]. }
+  assert (Hk : kids_ordered (Obj d (map (merge_tree ids false) n) m i x)).
+  { unfold ord_tree in Ho. rewrite nflatten_eq in Ho. inversion Ho as [|? ? H0 _]; subst.
+    unfold kids_ordered in *. cbn [onch] in *.
+    rewrite <- H0. apply ordered_first_ext. rewrite !map_map.
+    rewrite <- (map_rk_merge ids n Gn). now rewrite map_map. }
+  assert (Plain : ord_tree (Obj d (map (merge_tree ids false) n) m i x)).
+  { unfold ord_tree. rewrite nflatten_eq. cbn [onch]. constructor; [exact Hk|exact Hl]. }
+  rewrite merge_tree_eq. destruct (memN (o_id d) ids); [|exact Plain].
+  destruct (map (merge_tree ids false) n) as [|[dc cn cm ci cx] [|c2 tl]] eqn:En; try exact Plain.
+  unfold nflattens in Hl. cbn [flat_map] in Hl. rewrite app_nil_r, nflatten_eq in Hl. cbn [onch] in Hl.
+  inversion Hl as [|? ? Hcn Hrest]; subst.
+  unfold ord_tree. rewrite nflatten_eq. cbn [onch]. constructor; [|exact Hrest].
+  unfold kids_ordered in *. cbn [onch] in *. exact Hcn.
+Qed.
+
+(* the witness: Machine(0) > [Package(1, complete {0,3}) > Core(2, complete {3}) > PU ; Package(4, {1}) > Core(5, {1}) > PU]:
+   the Packages are in order (0 < 1), the Cores that replace them are not (3 > 1); the guard is false on it *)
+Definition mk_c (id ty : N) (cc : bset) : dobj :=
+  mkDobj id ty 0%Z id (Some id) PNull PNull PNull PNull PNull PNull PNull
+         0 0 0 0 0 0 None [] [] [] [] (Some cc) (Some cc) (Some (bs_single 0)) (Some (bs_single 0)) 0 0
+         (-1)%Z (-1)%Z (-1)%Z (-1)%Z (-1)%Z (-1)%Z (-1)%Z.
+Definition leaf (id ty : N) (cc : bset) : obj := Obj (mk_c id ty cc) [] [] [] [].
+Definition wide_tree : obj :=
+  Obj (mk_c 0 HWLOC_OBJ_MACHINE (bs_of_N 11))
+      [Obj (mk_c 1 HWLOC_OBJ_PACKAGE (bs_of_N 9)) [Obj (mk_c 2 HWLOC_OBJ_CORE (bs_of_N 8)) [leaf 3 HWLOC_OBJ_PU (bs_of_N 8)] [] [] []] [] [] [];
+       Obj (mk_c 4 HWLOC_OBJ_PACKAGE (bs_of_N 2)) [Obj (mk_c 5 HWLOC_OBJ_CORE (bs_of_N 2)) [leaf 6 HWLOC_OBJ_PU (bs_of_N 2)] [] [] []] [] [] []]
+      [] [] [].
+
+Definition kids_orderedb (p : obj) : bool :=
+  ordered_first (map (fun c => oset (o_ccs (odata c))) (onch p)) (-1)%Z false.
+
+Example merge_order_refuted :
+  forallb kids_orderedb (nflatten wide_tree) = true /\
+  forallb kids_orderedb (nflatten (merge_tree [1; 4] false wide_tree)) = false /\
+  (* the repaired pass leaves the Package level in place on it *)
+  let filters := map (fun ty => if ty =? HWLOC_OBJ_PACKAGE then HWLOC_TYPE_FILTER_KEEP_STRUCTURE else HWLOC_TYPE_FILTER_KEEP_ALL)
+                     (map N.of_nat (seq 0 (N.to_nat HWLOC_OBJ_TYPE_MAX))) in
+  match keep_structure filters [] wide_tree with
+  | Some r => map o_id (pays r) = map o_id (pays wide_tree) /\ forallb kids_orderedb (nflatten r) = true
+  | None => False
+  end.
+Proof. vm_compute. repeat split; reflexivity. Qed.
